@@ -111,13 +111,14 @@ def oracle_a(data, offsets):
 # -- oracle B ------------------------------------------------------------------------------------
 
 class World:
-    def __init__(self, warm, sid, simple=False):
+    def __init__(self, warm, sid, simple=False, collecting=False):
         self.simple = simple
         self.loop = VLoop().install()
         self.seam = RandomSeam(Choice())
         self.seam.__enter__()
         self.cap = install_log_capture()
-        self.prot = make_sd(self.loop, timings(CYCLIC_OFFER_DELAY=1, REPETITIONS_MAX=0))
+        self.prot = make_sd(self.loop, timings(CYCLIC_OFFER_DELAY=1, REPETITIONS_MAX=0,
+                                               SEND_COLLECTION_TIMEOUT=2 ** -7 if collecting else 0))
         self.log = []
         self.cl = ClientRec("L", self.log, self.loop)
         self.sl = ServerRec("S", self.log, self.loop)
@@ -150,6 +151,12 @@ class World:
             self.loop.run_until(0.5)
         self.prot.transport.sent.clear()
         self.log.clear()
+        if collecting:
+            # an answer to this sender is being collected; the datagram under test arrives at the very instant the
+            # collection period ends, before the loop has run the period's timer
+            self.prot.datagram_received(
+                refcodec.sd_message(3, [("subscribe", sid, 1, 1, 3, 5, (refcodec.v4("192.0.2.9", 30501),), ())]), SENDER, False)
+            self.loop.advance(2 ** -7)
 
     def deliver(self, data, multicast):
         exc = None
@@ -213,8 +220,8 @@ def twin_of(data):
 _TWIN_CACHE = {}
 
 
-def world_result(warm, sid, data, multicast, simple=False):
-    w = World(warm, sid, simple)
+def world_result(warm, sid, data, multicast, simple=False, collecting=False):
+    w = World(warm, sid, simple, collecting)
     try:
         if data:
             exc = w.deliver(data, multicast)
@@ -232,13 +239,15 @@ def world_result(warm, sid, data, multicast, simple=False):
 def oracle_b(data, sid, with_simple=False):
     out = []
     tw = twin_of(data)
-    combos = [(warm, mc, False) for warm in (False, True) for mc in (False, True)]
+    combos = [(warm, mc, False, False) for warm in (False, True) for mc in (False, True)]
     if with_simple:
-        combos.append((True, False, True))
-    for warm, mc, simple in combos:
+        combos.append((True, False, True, False))
+        combos.append((True, False, False, True))
+    for warm, mc, simple, collecting in combos:
         if True:
-            exc, obs, loopexc, swallowed = world_result(warm, sid, data, mc, simple)
-            where = f"{'warm' if warm else 'fresh'} discovery endpoint{' with a SimpleService listener' if simple else ''}, " \
+            exc, obs, loopexc, swallowed = world_result(warm, sid, data, mc, simple, collecting)
+            where = f"{'warm' if warm else 'fresh'} discovery endpoint{' with a SimpleService listener' if simple else ''}" \
+                    f"{' at the end of a send-collection period for the sender' if collecting else ''}, " \
                     f"{'multicast' if mc else 'unicast'}"
             if exc:
                 out.append(("receive-path", f"raises-{exc}", f"{where}: {exc} escaped datagram_received"))
@@ -247,9 +256,9 @@ def oracle_b(data, sid, with_simple=False):
                 out.append(("receive-path", f"loop-exception-{loopexc[0][2]}", f"{where}: {loopexc[:1]}"))
             if swallowed:
                 out.append(("receive-path", f"swallowed-{swallowed[0][1]}", f"{where}: {swallowed[:1]}"))
-            k = (warm, mc, simple, tw)
+            k = (warm, mc, simple, collecting, tw)
             if k not in _TWIN_CACHE:
-                _TWIN_CACHE[k] = world_result(warm, sid, tw, mc, simple)[1]
+                _TWIN_CACHE[k] = world_result(warm, sid, tw, mc, simple, collecting)[1]
             if obs != _TWIN_CACHE[k]:
                 t = _TWIN_CACHE[k]
                 what = "state" if obs[0] != t[0] else ("callbacks" if obs[1] != t[1] else "transmissions")
@@ -381,7 +390,7 @@ def replay(ctx, body):
         if name == c.get("seed"):
             offs = offsets_of(sb)
     va, cls = oracle_a(data, offs)
-    vb = oracle_b(data, sid) + service_endpoint(data)
+    vb = oracle_b(data, sid, c.get("seed") in ("sd-subscribe-cfg", "sd-stop-subscribe")) + service_endpoint(data)
     print("decoder outcome classes:", cls)
     for v in va + vb:
         print("FAILS:", v)
